@@ -51,6 +51,15 @@ pub const PROBES: &[&str] = &[
     "from t | select {a, b, c, d} | select !{b, d} | derive e = a + c",
     // loop and relation literal
     "from [{a = 1, b = 2}, {a = 3, b = 4}] | loop (filter a < 5 | select {a = a + 1, b})",
+    // two relations of the same name (modules), both reaching SQL: which keeps the name?
+    "module ma { let x = (from t | take 5) }\nmodule mb { let x = (from u | take 7) }\nfrom p = ma.x | join r = mb.x (==a) | select {p.a, r.d}",
+    // a let-table named like a database table of the same query
+    "module mm { let t = (from src | take 3) }\nfrom t | join l = mm.t (==a) | select {t.a, l.b}",
+    // three same-named relations and a generated one
+    "module ma { let x = (from t | take 5) }\nmodule mb { let x = (from u | take 7) }\nmodule mc { let x = (from v | take 9) }\nfrom ma.x | append mb.x | append mc.x | sort a | take 2 | filter a > 1",
+    // wildcard over two inferred inputs plus a computed column
+    "from t | join u (==a) | select {x = 1, t.a, u.d} | select {this.*}",
+    "from t | join u (==a) | derive {x = t.b + u.d} | select {this.*} | sort x",
     // s-strings with several arguments
     "from t | select {x = s\"F({a}, {b}, {c})\", y = s\"G({c}, {a})\"} | filter x > y",
 ];
